@@ -6,7 +6,7 @@ root=os.path.dirname(os.path.dirname(os.path.abspath(__file__)))
 REPO=os.environ.get('VERIF_REPO','/repo')   # a scratch worktree when run in a background snapshot (the checks honour VERIF_REPO too)
 tier=sys.argv[1] if len(sys.argv)>1 else 'quick'
 ids=sys.argv[2:] or sorted(d for d in os.listdir(root+'/seeded') if os.path.isdir(root+'/seeded/'+d))
-EXTRA={'C01-3':['C16'],'C04-3':['C06'],'C05-3':['C06'],'C03-2':['C06'],'C14-2':['C06'],'C15-1':['C02'],'C07-3':['C05'],'C02-2':['C05'],'C16-1':['C01'],'C05-2':['C07'],'C03-r3-2':['C06'],'C03-r3-3':['C04'],'C07-r3-3':['C03','C14'],'C04-r3-1':['C05'],'C13-r3-2':['C04','C06'],'C11-r3-3':['C12'],'C06-r5-2':['C04'],'C03-r5-1':['C05'],'C02-r5-3':['C03','C14'],'C03-r5-2':['C02'],'C14-r5-2':['C02'],'C04-r5-3':['C05','C07'],'C05-r5-1':['C04'],'C07-r5-3':['C05'],'C01-r5-1':['C16'],'C04-r5-1':['C16'],'C16-r5-1':['C01','C04'],'C12-r5-2':['C05','C03'],'C05-r5-2':['C03'],'C07-r5-2':['C05','C03'],'C15-r5-1':['C02'],'C02-r5-1':['C15'],'C14-r5-1':['C15'],'C15-r5-2':['C14'],'C10-r5-1':['C04'],'C13-r5-1':['C04'],'C09-r5-1':['C04'],'C13-r5-3':['C08'],'C08-r5-2':['C13']}
+EXTRA={'C01-3':['C16'],'C04-3':['C06'],'C05-3':['C06'],'C03-2':['C06'],'C14-2':['C06'],'C15-1':['C02'],'C07-3':['C05'],'C02-2':['C05'],'C16-1':['C01'],'C05-2':['C07'],'C03-r3-2':['C06'],'C03-r3-3':['C04'],'C07-r3-3':['C03','C14'],'C04-r3-1':['C05'],'C13-r3-2':['C04','C06'],'C11-r3-3':['C12'],'C06-r5-2':['C04'],'C03-r5-1':['C05'],'C02-r5-3':['C03','C14'],'C03-r5-2':['C02'],'C14-r5-2':['C02'],'C04-r5-3':['C05','C07'],'C05-r5-1':['C04'],'C07-r5-3':['C05'],'C01-r5-1':['C16'],'C04-r5-1':['C16'],'C16-r5-1':['C01','C04'],'C12-r5-2':['C05','C03'],'C05-r5-2':['C03'],'C07-r5-2':['C05','C03'],'C15-r5-1':['C02'],'C02-r5-1':['C15'],'C14-r5-1':['C15'],'C15-r5-2':['C14'],'C10-r5-1':['C04'],'C13-r5-1':['C04'],'C09-r5-1':['C04'],'C13-r5-3':['C08'],'C08-r5-2':['C13'],'C14-r8-1':['C03','C06'],'C15-r8-2':['C06','C14'],'C14-r8-3':['C02'],'C16-r8-2':['C01'],'C08-r8-2':['C04','C06'],'C05-r8-2':['C18'],'C18-r8-2':['C05']}
 def clean():
     st=subprocess.run('git -C '+REPO+' status --porcelain --untracked-files=no',shell=True,capture_output=True,text=True).stdout.strip()
     return st==''
